@@ -59,7 +59,7 @@ def run_case(case):
   timeout = fault.get('timeout') if fault['kind'] == 'timeout' else None
 
   def main():
-    if fault['kind'] == 'iter_raises':
+    if fault['kind'] == 'iter_raises' or (fault['kind'] == 'stop' and fault.get('unannounced')):
       # the number of producers is not announced: the queue counts the producers that register themselves
       q = iter_utils.IteratorQueue(case['buffer'], name='q')
     else:
@@ -110,7 +110,12 @@ def run_case(case):
         dsched.time_shim.sleep(0)
       s = dsched.S()
       box['blocked_at_fault'] = sum(1 for v in s.threads if not v.finished and v.blocked_on is not None and v.where == 'Condition.wait')
-      q.maybe_stop(targets.EXC[fault['exc']]('external stop') if fault.get('exc') else None)
+      try:
+        q.maybe_stop(targets.EXC[fault['exc']]('external stop') if fault.get('exc') else None)
+      except dsched._Killed:  # pylint: disable=protected-access
+        raise
+      except BaseException as e:  # pylint: disable=broad-exception-caught
+        box['stop_raised'] = e
     ths = [dsched.Thread(target=producer, args=(i,), name=f'P{i}') for i in range(len(prods))]
     ths += [dsched.Thread(target=consumer, args=(i,), name=f'C{i}') for i in range(len(cons))]
     if fault['kind'] == 'stop':
@@ -161,6 +166,7 @@ def run_case(case):
       check(sorted(flat) == want, 'elements-lost', f'{what}: consumers ended normally with {received}, the healthy producers made {want}')
     nt = len(prods) >= 3
   elif fault['kind'] == 'stop':
+    check('stop_raised' not in box, 'stop-request-raises', lambda: f'{what}: maybe_stop() raised {box["stop_raised"]!r}')
     for ci, f in enumerate(finals):
       check(f is not None, 'consumer-did-not-terminate', f'{what}: consumer {ci} still blocked after stop')
       if fault.get('exc'):
@@ -366,17 +372,18 @@ def strat(tier):
     if kind == 'producer_raises':
       i = draw(st.integers(0, len(prods) - 1))
       fault = {'kind': kind, 'producer': i, 'at': draw(st.integers(0, prods[i])),
-               'exc': draw(st.sampled_from(['ValueError', 'KeyError', 'RuntimeError', 'InjectedError'])),
+               'exc': draw(st.sampled_from(['ValueError', 'KeyError', 'RuntimeError', 'InjectedError', 'TimeoutError'])),
                'stop_after_error': draw(st.booleans())}
     elif kind == 'iter_raises':
       if len(prods) < 2:
         prods = prods + [draw(st.integers(0, 3))]
       fault = {'kind': kind, 'producer': draw(st.integers(0, len(prods) - 1)), 'exc': draw(st.sampled_from(['ValueError', 'KeyError', 'RuntimeError']))}
     elif kind == 'stop':
-      fault = {'kind': kind, 'after': draw(st.integers(0, 6)), 'exc': draw(st.sampled_from([None, None, 'ValueError', 'RuntimeError']))}
+      fault = {'kind': kind, 'after': draw(st.integers(0, 6)), 'exc': draw(st.sampled_from([None, None, 'ValueError', 'RuntimeError'])),
+               'unannounced': draw(st.sampled_from([False, False, True]))}
     else:
       side = draw(st.sampled_from(['producer_stalls', 'consumer_stalls']))
-      fault = {'kind': kind, 'side': side, 'at': draw(st.integers(0, 3)), 'timeout': draw(st.sampled_from([0.5, 3.0]))}
+      fault = {'kind': kind, 'side': side, 'at': draw(st.integers(0, 3)), 'timeout': draw(st.sampled_from([0.5, 3.0, 0, 0.0]))}
       if side == 'consumer_stalls':
         cons = [{'mode': 'get', 'n': 1}]
         prods = [max(p, 1) for p in prods]
